@@ -759,31 +759,47 @@ def read_trace_report(ctx, pool):
 # ----------------------------------------------------------------------------- dtype sweep (every tier)
 
 
+def sweep_heads(lens):
+    """head indices of every kind on parts of the given lengths: each part alone, part boundaries, everything"""
+    n = sum(lens)
+    last = n - lens[-1]                      # first row of the last part
+    one = lambda k: [int(i == k) for i in range(n)]
+    return [('i', 0), ('i', last), ('i', n - 1), ('i', -1), ('s', None, None, None), ('s', 0, lens[0], None),
+            ('s', 1, None, 2), ('s', last, None, None), ('s', n - 1, None, None), ('s', 0, 1, None),
+            ('m', [int(i in (0, last, n - 1)) for i in range(n)]), ('m', one(0)), ('m', one(n - 1)),
+            ('m', [int(i >= last) for i in range(n)]), ('l', [0, n - 1]), ('l', list(range(1, n - 1))), ('l', [n - 1]),
+            ('l', [0]), ('l', [-1, 0]), ('l', [n - 1, 1]), ('l', list(range(last, n))), ('l', [])]
+
+
 def dtype_sweep():
-    """fixed cases: part dtypes (every common dtype, byte strings narrow-first / wide-first / equal / three widths,
-    rejected mixtures) x every head kind x (no transform, dtype-changing maps); 1-D and 2-D parts"""
-    heads = [('i', 0), ('i', 4), ('i', -1), ('s', None, None, None), ('s', 0, 2, None), ('s', 1, None, 2),
-             ('s', 3, None, None), ('m', [1, 0, 0, 1, 1]), ('m', [1, 1, 0, 0, 0]), ('m', [0, 0, 0, 0, 1]),
-             ('l', [0, 4]), ('l', [1, 2, 3]), ('l', [4]), ('l', [0]), ('l', [-1, 0]), ('l', [3, 1]), ('l', [])]
+    """fixed cases: part dtypes (every common dtype, byte strings narrow-first / wide-first / equal / rising and falling
+    over three parts, an empty part of another dtype in front, mixtures katdal rejects) x every head kind x
+    (no transform, dtype-changing maps); 1-D and 2-D parts.  Every byte-string part is long enough to hold strings of
+    its full width, so a buffer or cast narrower than the part loses data that the selection returns."""
     dtsets = [[d, d] for d in NUMERIC] + [[102, 104], [104, 102], [103, 103], [101, 106], [106, 101]] + \
         [[0, 1], [3, 0], [2, 1], [4, 5]]
     chains = [[], [('map', 1, -1, 3)], [('map', -1, 1, 3)], [('map', 2, 1, 1)], [('map', 1, 0, 0)], [('map', 3, 0, 5)],
               [('map', 1, 0, 4), ('map', 2, 0, 1)]]
     cases = []
-    for dts in dtsets:
-        for tail in ([], [2]):
-            for h in heads:
-                for ts in (chains if dts[0] < 100 else [[]]):
-                    if tail and h[0] != 'l' and ts:
-                        continue          # keep the sweep small: 2-D with transforms only for the list head
-                    parts = [dict(shape=[3] + tail, keep=[], dt=dts[0]), dict(shape=[2] + tail, keep=[], dt=dts[1])]
-                    cases.append(dict(kind='concat', parts=parts, ts=list(ts), dt=dts[0], index=[h]))
-    # three parts with an empty one in front (its dtype does not count) and widths rising / falling
-    for dts in ([106, 101, 103], [101, 103, 106], [106, 103, 101], [0, 102, 105]):
+
+    def add(lens, dts, tail, heads, tss):
         for h in heads:
-            parts = [dict(shape=[0], keep=[], dt=dts[0]), dict(shape=[3], keep=[], dt=dts[1]),
-                     dict(shape=[2], keep=[], dt=dts[2])]
-            cases.append(dict(kind='concat', parts=parts, ts=[], dt=dts[0], index=[h]))
+            for ts in tss:
+                parts = [dict(shape=[n] + tail, keep=[], dt=d) for n, d in zip(lens, dts)]
+                cases.append(dict(kind='concat', parts=parts, ts=list(ts), dt=dts[0], index=[h]))
+    for dts in dtsets:
+        lens = [3 if dts[0] < 100 else dts[0] - 100, 2 if dts[1] < 100 else dts[1] - 100]
+        heads = sweep_heads(lens)
+        add(lens, dts, [], heads, chains if dts[0] < 100 else [[]])
+        add(lens, dts, [2], heads, [[]])
+        add(lens, dts, [2], [h for h in heads if h[0] == 'l'], chains[1:] if dts[0] < 100 else [])
+    # three parts: widths rising / falling / widest in the middle; an empty part (any dtype) in front or in the middle
+    for dts in ([101, 103, 106], [106, 103, 101], [102, 106, 103]):
+        lens = [d - 100 for d in dts]
+        add(lens, dts, [], sweep_heads(lens), [[]])
+    for lens, dts in (([0, 3, 6], [106, 103, 106]), ([0, 3, 2], [1, 103, 102]), ([2, 0, 4], [102, 0, 104]),
+                      ([0, 3, 2], [0, 4, 4])):
+        add(lens, dts, [], sweep_heads(lens), [[]])
     return cases
 
 # ----------------------------------------------------------------------------- small-scope exhaustive (thorough)
@@ -817,6 +833,11 @@ def small_scope(ctx):
         for i1 in alpha(3):
             cases.append(dict(kind='concat', parts=[dict(shape=[h, 2], keep=[]) for h in split], ts=[], dt=0,
                               index=[i1]))
+    for split, dts in (([1, 2], [101, 102]), ([2, 1], [102, 101]), ([1, 1, 1], [101, 103, 102]), ([1, 2], [3, 3]),
+                       ([2, 1], [4, 4])):
+        for i1 in alpha(3):
+            cases.append(dict(kind='concat', parts=[dict(shape=[h, 2], keep=[], dt=d) for h, d in zip(split, dts)],
+                              ts=[], dt=dts[0], index=[i1]))
     return cases
 
 # ----------------------------------------------------------------------------- entry points
